@@ -344,6 +344,33 @@ def valuations(j, rng, n):
                 j.ok(cid)
 
 
+def small_motions(j, rng, n):
+    """a line moved by a rigid motion whose rotation is tiny but not zero (1e-9 .. 1e-3 rad) still passes through the
+    moved points: (T * L) contains T * P and T * Q to 1e-9 relative"""
+    from spatialmath import Plucker, SE3
+    for i in range(n):
+        ang = (1e-9, 1e-8, 1e-7, 3e-7, 1e-6, 1e-5, 1e-3)[i % 7]
+        P = np.array([rng.uniform(-3, 3) for _ in range(3)])
+        Q = P + np.array([rng.uniform(0.5, 2), rng.uniform(-2, -0.5), rng.uniform(0.5, 2)])
+        t = [rng.uniform(-2, 2) for _ in range(3)] if i % 2 else [0.0, 0.0, 0.0]
+        feat = "rotation=%g;%s" % (ang, "with-translation" if i % 2 else "pure-rotation")
+        cid = ("small-motion", feat)
+        try:
+            T = SE3(t) * (SE3.Rx, SE3.Ry, SE3.Rz)[i % 3](ang)
+            L2 = T * Plucker.PQ(P, Q)
+            A = np.asarray(T.A, dtype=float)
+            pts = [A[:3, :3] @ x + A[:3, 3] for x in (P, Q, 3 * Q - 2 * P)]
+            scale = max(1.0, max(float(np.max(np.abs(x))) for x in pts))
+            res = max(incidence_residual(L2, x, scale) for x in pts)
+        except Exception as ex:  # noqa: BLE001
+            j.fail("%s|SE3*Plucker|%s|raised-%s" % (PID, feat, type(ex).__name__), {"kind": "small-motion", "angle": ang}, cid)
+            continue
+        if not (res <= 1e-9):
+            j.fail("%s|SE3*Plucker|%s|moved-line-misses-moved-points" % (PID, feat), {"kind": "small-motion", "angle": ang, "residual": res}, cid)
+        else:
+            j.ok(cid)
+
+
 def run(tier):
     j = Judge(PID)
     thorough = tier == "thorough"
@@ -365,6 +392,7 @@ def run(tier):
     lat = j.evaluations
     import random
     valuations(j, random.Random(common.seed() + 19), 1500 if thorough else 200)
+    small_motions(j, random.Random(common.seed() + 191), 350 if thorough else 70)
     cov = {"lattice_exact": lat, "valuation": j.evaluations - lat, "states": r.distinct, "transitions": r.generated, "traces_validated_against_impl": n, "exhaustive": True,
            "theorems_checked_by_tlc": 6, "checker_cmd": r.cmd,
            "rule": "case = (method, query kind, constructed relation, scale); integer defining data from fixed point / "
